@@ -5,7 +5,7 @@ from collections.abc import Iterable
 from contextlib import contextmanager
 
 from basilisp.lang.compiler.constants import OPERATOR_ALIAS
-from basilisp.lang.compiler.utils import ast_FunctionDef
+from basilisp.lang.compiler.utils import ast_AsyncFunctionDef, ast_FunctionDef
 
 
 def _filter_dead_code(nodes: Iterable[ast.stmt]) -> list[ast.stmt]:
@@ -170,6 +170,22 @@ class PythonASTOptimizer(ast.NodeTransformer):
         assert isinstance(new_node, ast.FunctionDef)
         return ast.copy_location(
             ast_FunctionDef(
+                name=new_node.name,
+                args=new_node.args,
+                body=_filter_dead_code(new_node.body),
+                decorator_list=new_node.decorator_list,
+                returns=new_node.returns,
+            ),
+            new_node,
+        )
+
+    def visit_AsyncFunctionDef(self, node: ast.AsyncFunctionDef) -> ast.AST | None:
+        """Eliminate dead code from async function bodies."""
+        with self._new_global_context():
+            new_node = self.generic_visit(node)
+        assert isinstance(new_node, ast.AsyncFunctionDef)
+        return ast.copy_location(
+            ast_AsyncFunctionDef(
                 name=new_node.name,
                 args=new_node.args,
                 body=_filter_dead_code(new_node.body),
